@@ -393,6 +393,14 @@ class IncompleteHashTree(CompleteBinaryTreeMixin, list):
                                        % (leafnum, hashnum))
             new_hashes[hashnum] = leafhash
 
+        # hash numbers come from untrusted sources: refuse numbers that do
+        # not name a node of this tree before touching anything (an
+        # IndexError half way through would leave unvalidated hashes behind)
+        for i in new_hashes:
+            if not (0 <= i < len(self)):
+                raise IndexError("hash number %r is not in this tree "
+                                 "(which has %d nodes)" % (i, len(self)))
+
         remove_upon_failure = set() # we'll remove these if the check fails
 
         # visualize this method in the following way:
